@@ -255,7 +255,7 @@ func runC17(w *mon.W) {
 	c17Large(w)
 	r := w.Rng
 	sizes := []int{0, 1, 2, 5, 40}
-	nsets := w.Share(w.Pick(60, 2000))
+	nsets := w.Share(w.Pick(120, 2000))
 	readers := []struct {
 		name string
 		f    func([]byte) io.Reader
